@@ -56,7 +56,12 @@ AllSorted(tabs) == SortSeq(Concat(tabs), EntLt)
 \* values as token bags: a value is a sequence of bytes holding 2-byte big-endian tokens in ascending order
 Tokens(v) == [i \in 1..(Len(v) \div 2) |-> v[2*i - 1] * 256 + v[2*i]]
 TokBytes(ts) == FlattenSeq([i \in 1..Len(ts) |-> <<ts[i] \div 256, ts[i] % 256>>])
-TokUnion(vs) == TokBytes(SortSeq(FlattenSeq([i \in 1..Len(vs) |-> Tokens(vs[i])]), <))     \* fold of the merge function, any order
+\* fold of the merge function, any order: bag union, except that tokens from 32768 on cancel in pairs (only the parity of their
+\* number survives) - associative and commutative all the same, and a merged value can be shorter than its operands, or empty
+TokUnion(vs) == LET all == SortSeq(FlattenSeq([i \in 1..Len(vs) |-> Tokens(vs[i])]), <)
+                    keep(i) == all[i] < 32768 \/ ((i = 1 \/ all[i - 1] # all[i]) /\ Cardinality({j \in 1..Len(all) : all[j] = all[i]}) % 2 = 1)
+                    idx == SelectSeq([i \in 1..Len(all) |-> i], keep)
+                IN TokBytes([q \in 1..Len(idx) |-> all[idx[q]]])
 
 \* with a merge function: one entry per distinct key, value = bag union of all values for the key.
 \* An entry also carries n, the number of source values folded (merge calls = n - 1).
